@@ -2,6 +2,7 @@
 from lib.facts import norm, place_fields
 from lib import tables
 
+INLINE = True      # crate-local helpers the rules do not know by name are inlined into their callers (lib/inline.py)
 EXPLANATION = (
     "R16.1 symmetric-comparator taint: in every function of the crate that returns Ordering and has two parameters of "
     "one type (a, b), every comparison site (cmp/partial_cmp/natural_cmp/local comparator/fn-pointer call/binary "
@@ -425,6 +426,8 @@ def r16_6(ctx, prog, crate):
             t = x.term(i)
             n += 1
             kind = None
+            if x.inlined_from(i):
+                continue    # a copy of a helper's block: examined in the helper's own body
             if t["k"] == "assert":
                 kind = "assert:" + t["kind"]
             elif t["k"] == "call":
